@@ -105,6 +105,11 @@ func (c *Ctx) PanicScan(ob *core.Obligation, reachKey string, roots []*ssa.Funct
 //	index / split-const                      a constant index into the result of strings.Split
 //	                                         with a constant separator
 func (c *Ctx) siteShape(fn *ssa.Function, in ssa.Instruction, kind string, pc func() *core.PathConds) string {
+	// sites of the error renderer: functions reachable from the method that shows a Range on
+	// its source (their bounds are runtime quantities: an assumption stated in the evidence)
+	if (kind == "slice" || kind == "index" || kind == "repeat") && c.inRenderer(fn) {
+		return "renderer"
+	}
 	switch kind {
 	case "explicit":
 		if pc().Requires(in.Block(), setString10Failed) {
@@ -171,6 +176,63 @@ func (c *Ctx) siteShape(fn *ssa.Function, in ssa.Instruction, kind string, pc fu
 		}
 	}
 	return ""
+}
+
+// inRenderer: fn is the exported method of parser.Range that renders it on a source text, a
+// closure of it, or a function of the package only it calls.
+func (c *Ctx) inRenderer(fn *ssa.Function) bool {
+	if relOfFn(fn) != "internal/parser" {
+		return false
+	}
+	isRoot := func(g *ssa.Function) bool {
+		for g.Parent() != nil {
+			g = g.Parent()
+		}
+		recv := g.Signature.Recv()
+		if recv == nil || typeShort(derefT(recv.Type())) != "Range" || g.Object() == nil || !g.Object().Exported() {
+			return false
+		}
+		// takes the source text and returns text
+		res := g.Signature.Results()
+		return g.Signature.Params().Len() == 1 && res.Len() == 1 && isStringType(g.Signature.Params().At(0).Type()) && isStringType(res.At(0).Type())
+	}
+	if isRoot(fn) {
+		return true
+	}
+	// every caller (in the module) is in the renderer
+	seen := map[*ssa.Function]bool{}
+	var onlyFromRenderer func(g *ssa.Function, d int) bool
+	onlyFromRenderer = func(g *ssa.Function, d int) bool {
+		if isRoot(g) {
+			return true
+		}
+		if d > 3 || seen[g] {
+			return false
+		}
+		seen[g] = true
+		top := g
+		for top.Parent() != nil {
+			top = top.Parent()
+		}
+		n := 0
+		for _, h := range c.P.ModuleFunctions() {
+			for _, ci := range core.Calls(h) {
+				if ci.Common().StaticCallee() == top {
+					n++
+					if !onlyFromRenderer(h, d+1) {
+						return false
+					}
+				}
+			}
+		}
+		return n > 0
+	}
+	return onlyFromRenderer(fn, 0)
+}
+
+func isStringType(t types.Type) bool {
+	b, ok := t.Underlying().(*types.Basic)
+	return ok && b.Kind() == types.String
 }
 
 // setString10Failed: the literal says that the ok result of (*big.Int).SetString(_, 10) is false.
@@ -689,7 +751,7 @@ func (c *Ctx) boundsOK(b *ssa.BasicBlock, x, idx ssa.Value, slack int64, pc *cor
 		if idxOver != nil {
 			t := "len(" + core.Canon(idxOver) + ")"
 			it0, io0 := core.Linear(core.Strip(idx))
-			d.Add("0", it0, io0)   // 0 <= idx
+			d.Add("0", it0, io0)  // 0 <= idx
 			d.Add(it0, t, -1-io0) // idx <= len(X) - 1
 		}
 		if arr, ok := derefArray(x.Type()); ok {
